@@ -21,7 +21,7 @@ func init() { sim.Register(c14{}) }
 
 func (c14) ID() string     { return "C14" }
 func (c14) Level() string  { return "exploration" }
-func (c14) QuickRuns() int { return 1600 }
+func (c14) QuickRuns() int { return 4800 }
 func (c14) Rule() string {
 	return "each evaluation is one program (20-60 generated instructions: random opcodes under tracked widths, REP/SEP switches, constructed backward loops, forward branches, BRL both ways, WDM, STP, PER/PEA/PEI) with a seeded start state (all four width combinations, E, D low byte, DBR, SP) and seeded memory fill, run three times: traced (emulator.System.RunUntil with a simulated Logger, or cpualt DisassembleCurrentPC before each Step), untraced, and an externally recorded reference pass; distinct = distinct scenario hash; non-trivial = the sink injected a fault, or a backward branch was traced, or the run ended on the target"
 }
